@@ -7,7 +7,8 @@ THEOREMS = [
     "C18_estimated_start_clamped", "C18_float_scalings_monotone", "C18_topup",
 ]
 MODULE = "LV.Sweep.Props"
-TARGETS = ["theories/Sweep/Props.vo", "theories/Sweep/Exec.vo", "theories/Sweep/Examples.vo"]
+TARGETS = ["theories/Sweep/Props.vo", "theories/Sweep/Exec.vo", "theories/Sweep/Examples.vo",
+           "theories/Sweep/GenBridge.vo"]
 WARM = [{"pkg": "sweep", "files": ["sweep/verif_fee_test.go"]}]
 IMPORTS = ("From Coq Require Import List ZArith.\nImport ListNotations.\n"
            "From LV Require Import Sweep.Model Sweep.Exec.\n")
